@@ -306,7 +306,12 @@ def concretise(w, m, version):
         content = c or {}
         if fld(w.ev_authorised_via) == 1: content['join_authorised_via_users_server'] = users['authoriser']
         elif fld(w.ev_authorised_via) == 2: content['join_authorised_via_users_server'] = 5
-        if fld(w.ev_tpi) == 1: content['third_party_invite'] = {'signed': {'mxid': users['target'], 'token': 't', 'signatures': {}}}
+        if fld(w.ev_tpi) == 1:
+            tk = iv(w.ev_tpi_token) if hasattr(w, 'ev_tpi_token') else 1
+            signed = {'mxid': users['target'], 'signatures': {}}
+            if tk == 1: signed['token'] = 't'
+            elif tk == 2: signed['token'] = 5
+            content['third_party_invite'] = {'signed': signed}
         elif fld(w.ev_tpi) == 2: content['third_party_invite'] = 5
     if kind == 'power_levels':
         content = pl_content_json(w.pl_new, users, etype, tv, iv, sint)
